@@ -33,7 +33,8 @@ RULE = ("random systems: 1-3 species x 1-3 environments; density / chstt scalar 
         "constructor and rdspace_from_dict routes) against the documented defaults; copy() histories (b = a.copy(), network.copy(), space.copy(); "
         "writes / species edits + regeneration on one, both re-inspected against their own expected content); refused-assignment histories (space with an environment index beyond the network's list / wrong type, network, state, "
         "chemostats, units_system, per-entry setters with bad values: after every refusal all entries are re-read and the defaults "
-        "regenerated against the unchanged expectation); sharing: "
+        "regenerated against the unchanged expectation); species edits are made through the setters AND in place through the objects the getters "
+        "return (density dict entry replaced / added, scalar `.value` changed, chstt dict entry) before regenerating; sharing: "
         "systems built from another system's arrays / the caller's ndarrays (constructor and property setters), a setter on one "
         "must change one entry of that system and nothing else, edits of the caller's arrays must not leak.  Non-trivial: more than one cell or "
         "species and a non-zero density somewhere; distinct by the whole description")
@@ -163,6 +164,44 @@ def used_env(desc, rng):
     idxs = sd["cell_env"] if sd["kind"] == "grid" else [nd["env"] for nd in sd["nodes"]]
     ok = [e for e in idxs if 0 <= e < len(desc["envs"])]
     return desc["envs"][rng.choice(ok)] if ok else desc["envs"][0]
+
+
+def inplace_density(rng, sp_real, spd, envs):
+    """edit a species' density IN PLACE through the object its getter returns (an entry of the per-environment dictionary
+    replaced / added, or the `.value` of the scalar UnitValue changed); returns (new description, what) or None"""
+    ev = spd["density"]
+    obj = sp_real.density
+    if ev[0] == "dict":
+        tab = {}
+        for k, x in ev[1]:
+            for ki in k.split(","):
+                tab[ki.strip()] = x
+        key = rng.choice(list(envs) + ["default"])
+        sys_ = rand_sys(rng)
+        v = nice_float(rng)
+        q = {"kind": "uval", "v": v, "sys": sys_, "si": frac(v) * si_factor(sys_, DENS)}
+        obj[key] = q_real(q, DENS)
+        tab[key] = q
+        return ("dict", list(tab.items())), "species.density[%r] = UnitValue(...)" % key
+    q0 = ev[1]
+    if q0["kind"] == "str" and "sys" not in q0:
+        return None
+    sys_ = tuple(spd["sys"]) if q0["kind"] == "num" else tuple(q0["sys"])
+    v = nice_float(rng)
+    obj.value = v
+    return ("single", {"kind": "uval", "v": v, "sys": sys_, "si": frac(v) * si_factor(sys_, DENS)}), "species.density.value = %r" % v
+
+
+def inplace_chstt(rng, sp_real, spd, envs):
+    ev = spd["chstt"]
+    if ev[0] != "dict":
+        return None
+    key = rng.choice(list(envs) + ["default"])
+    flag = rng.choice([True, False, 0, 1])
+    sp_real.chstt[key] = flag
+    tab = dict(ev[1])
+    tab[key] = flag
+    return ("dict", list(tab.items())), "species.chstt[%r] = %r" % (key, flag)
 
 
 def gen_desc(rng, malformed_env=False, force_falsy=False, omit_defaults=False):
@@ -614,8 +653,20 @@ def run_system(ctx, desc, idx):
         if desc.get("force_falsy") and _ == 0:
             newc = falsy_default_chstt(rng, desc["envs"], used_env(desc, rng))
             ctx.count("edit_chstt_falsy_with_default")
-        system.network.species[s].density = envval_real(newd, DENS)
-        system.network.species[s].chstt = envval_real(newc, None)
+        done_d = done_c = None
+        if _ == 1:      # second edit: IN PLACE, through the objects the getters return
+            done_d = inplace_density(rng, system.network.species[s], spd, desc["envs"])
+            done_c = inplace_chstt(rng, system.network.species[s], spd, desc["envs"])
+        if done_d is not None:
+            newd = done_d[0]
+            ctx.count("edit_density_in_place")
+        else:
+            system.network.species[s].density = envval_real(newd, DENS)
+        if done_c is not None:
+            newc = done_c[0]
+            ctx.count("edit_chstt_in_place")
+        else:
+            system.network.species[s].chstt = envval_real(newc, None)
         calls.append({"model": {"k": "edit_density", "species": s, "sys": sysj(spd["sys"]), "density": envval_model(newd, DENS)}, "real": (None, None), "forms": ("", "")})
         calls.append({"model": {"k": "edit_chstt", "species": s, "chstt": envval_model(newc, None)}, "real": (None, None), "forms": ("", "")})
         desc2 = dict(desc, species=[dict(x) for x in desc["species"]])
@@ -628,7 +679,8 @@ def run_system(ctx, desc, idx):
             except Exception as e:  # noqa
                 errs.append(type(e).__name__)
             calls.append({"model": {"k": nm}, "real": (None, errs[-1]), "forms": ("", "")})
-        ecase = {"desc": desc, "edited_species": s, "new_density": _jsonable_ev(newd), "new_chstt": _jsonable_ev(newc)}
+        ecase = {"desc": desc, "edited_species": s, "new_density": _jsonable_ev(newd), "new_chstt": _jsonable_ev(newc),
+                 "how": [done_d[1] if done_d else "density setter", done_c[1] if done_c else "chstt setter"]}
         ctx.case(("edit", idx, s), nontrivial=True)
         ctx.count("edits")
         if any(errs):
@@ -865,19 +917,30 @@ def run_copies(ctx, desc, idx):
                 history.append([name, "set_state", s_, c_, q.get("text", q["v"])])
             elif what == "edit_density":
                 spd = o["desc"]["species"][s_]
-                newd = gen_envval(rng, desc["envs"], lambda: gen_quantity(rng, spd["sys"], DENS))
-                o["sys"].network.species[s_].density = envval_real(newd, DENS)
+                done = inplace_density(rng, o["sys"].network.species[s_], spd, desc["envs"]) if rng.random() < 0.5 else None
+                if done is not None:
+                    newd = done[0]
+                    ctx.count("copy_edit_in_place")
+                else:
+                    newd = gen_envval(rng, desc["envs"], lambda: gen_quantity(rng, spd["sys"], DENS))
+                    o["sys"].network.species[s_].density = envval_real(newd, DENS)
                 o["sys"].set_default_state()
                 spd["density"] = newd
                 o["st"].clear()
-                history.append([name, "species[%d].density = ...; set_default_state()" % s_])
+                history.append([name, "%s; set_default_state()" % (done[1] if done else "species[%d].density = ..." % s_)])
             else:
-                newc = gen_envval(rng, desc["envs"], lambda: rng.random() < 0.5, comma=False)
-                o["sys"].network.species[s_].chstt = envval_real(newc, None)
+                spd = o["desc"]["species"][s_]
+                done = inplace_chstt(rng, o["sys"].network.species[s_], spd, desc["envs"]) if rng.random() < 0.5 else None
+                if done is not None:
+                    newc = done[0]
+                    ctx.count("copy_edit_in_place")
+                else:
+                    newc = gen_envval(rng, desc["envs"], lambda: rng.random() < 0.5, comma=False)
+                    o["sys"].network.species[s_].chstt = envval_real(newc, None)
                 o["sys"].set_default_chemostats()
-                o["desc"]["species"][s_]["chstt"] = newc
+                spd["chstt"] = newc
                 o["ch"].clear()
-                history.append([name, "species[%d].chstt = ...; set_default_chemostats()" % s_])
+                history.append([name, "%s; set_default_chemostats()" % (done[1] if done else "species[%d].chstt = ..." % s_)])
         except Exception as e:  # noqa
             ctx.violation("copy-write-raises", "%s on %s raised %s" % (what, name, type(e).__name__), {"desc": desc, "kind": "copies", "history": history},
                           impl=type(e).__name__, expected="ok")
